@@ -55,6 +55,8 @@ def make_spec(cfg, fill):
             'spike_templates': st, 'spike_clusters': sc, 'raw': cfg['raw'],
             'features': cfg['features'], 'tfeatures': 'absent', 'probes': cfg['probes'],
             'vec2d': cfg['vec2d'], 'whitening': cfg['whitening'], 'fill': fill, 'n_raw': 60,
+            # 30 / 25000 * 25000 truncates to 29: samples recovered from seconds must be rounded
+            'sample_rate': 25000.0,
             'tsv': ({'cluster_KSLabel.tsv': {'field': 'KSLabel', 'values': {0: 'good', 1: 'mua'}}}
                     if cfg['kslabel'] else {})}
     return spec
